@@ -475,6 +475,14 @@ def check_program(data: dict, lab: Labels) -> None:
                 lab.tag("nested-call-inside-deserialization")
             try:
                 res = _call_de(type(node), fmt, wire, opts, dialect)
+                if dialect is not None and mask & O_DIALECT and not did and res is not node and type(res) is type(node):
+                    # the dialect of the call (ints are written + 1000 and read - 1000) reached every
+                    # mapping of the payload, tagged or not: wherever the tree read has the class of the tree
+                    # written (untagged payloads lose subclasses), it has its int properties too
+                    dd = _first_int_difference(res, node)
+                    require(not dd, "options-not-applied-on-reading", f"{desc}: the dialect did not reach every nested object: {dd}")
+                    lab.tag("dialect-read-back-compared")
+                    lab.tag_if(bool(mask & O_SKIP), "dialect-read-back-compared-untagged")
                 del res
                 lab.tag("deserialization-ok")
             except Exception as e:  # noqa: BLE001 - any rejection of a corrupt payload is fine
@@ -493,6 +501,21 @@ def check_program(data: dict, lab: Labels) -> None:
                     require(inner == ref_probe, "options-leaked-into-nested-call",
                             f"{desc}: {first_difference(json.loads(inner), json.loads(ref_probe))}")
                 Bomb.nested_results = []
+            if dialect is not None and mask & O_DIALECT and not mask & (O_TEST | O_EXPL | O_OMIT) and fmt in ("dict", "yaml"):
+                # the same call on trees whose child fields are typed exactly (an untagged payload of them can be
+                # read back): the dialect reaches the untagged nested mappings too
+                for t in (M.cls("Mixed")(child=None, items=(), v=where),
+                          M.cls("Seq")(items=(), pair=(M.cls("LeafA")(v=where + 1), M.cls("LeafB")(v=where + 2)))):
+                    pl = _call_ser(t, "dict", opts, dialect)
+                    wire2 = pl if fmt == "dict" else yaml.dump(pl)
+                    t.detach()
+                    state["cur"] = (mask, opts)
+                    back = _call_de(type(t), fmt, wire2, opts, dialect)
+                    dd = _first_int_difference(back, t)
+                    require(type(back) is type(t) and not dd, "options-not-applied-on-reading",
+                            f"{desc}: exactly typed {type(t).__name__}: the dialect did not reach every nested object: {dd}")
+                    back.detach()
+                lab.tag("dialect-read-back-exactly-typed" + ("-untagged" if mask & O_SKIP else ""))
             probes(desc)
         elif kind == "all_as_dict":
             Source.all_as_dict(mashumaro_dialect=_dialect() if o[1] else None)
@@ -501,6 +524,31 @@ def check_program(data: dict, lab: Labels) -> None:
             Source.load_serialized_sources(Source.all_as_dict())
             probes("Source.load_serialized_sources")
     lab.count("calls", len(data["ops"]))
+
+
+def _same_shape(a: Any, b: Any) -> bool:
+    if type(a) is not type(b):
+        return False
+    ka, kb = list(T.live_children(a)), list(T.live_children(b))
+    return len(ka) == len(kb) and all(x[1:] == y[1:] and _same_shape(x[0], y[0]) for x, y in zip(ka, kb))
+
+
+def _first_int_difference(a: Any, b: Any) -> str:
+    """parallel walk as far as the classes agree; compares int-valued (and int-tuple-valued) properties"""
+    if type(a) is not type(b):
+        return ""
+    for f in M.prop_fields(type(a).__name__):
+        va, vb = getattr(a, f.name, None), getattr(b, f.name, None)
+        ints = lambda v: type(v) is int or (isinstance(v, tuple) and v and all(type(e) is int for e in v))  # noqa: E731
+        if ints(vb) and va != vb:
+            return f"{type(a).__name__}.{f.name}: read {va!r:.60}, written {vb!r:.60}"
+    for (x, fn, i), (y, fn2, i2) in zip(T.live_children(a), T.live_children(b)):
+        if (fn, i) != (fn2, i2):
+            break
+        d = _first_int_difference(x, y)
+        if d:
+            return f"{fn}[{i}] {d}"
+    return ""
 
 
 PROBE_SPEC = {
@@ -524,7 +572,7 @@ def st_program(ctx: Ctx):
                   falsy=False, wide=False)
     small = st.integers(0, 40)
     mask = st.one_of(st.integers(0, 127), st.sampled_from([O_SKIP, O_SORT, O_EXPL, O_TEST, O_INDEX, O_DIALECT, 0, O_SORT | O_SKIP,
-                                                            O_OMIT | O_SORT, O_OMIT, O_SORT]))
+                                                            O_OMIT | O_SORT, O_OMIT, O_SORT, O_SKIP | O_DIALECT, O_SKIP | O_DIALECT | O_SORT, O_DIALECT]))
     ser = st.tuples(st.just("ser"), small, st.integers(0, 3), mask, st.sampled_from([1, 1, 0, 0, 0]), small).map(list)
     de = st.tuples(st.just("de"), small, st.integers(0, 3), mask, st.sampled_from([1, 2, 3, 4, 0, 0]), small).map(list)
     other = st.one_of(st.tuples(st.just("all_as_dict"), st.booleans()).map(list), st.just(["load_sources"]))
